@@ -309,6 +309,61 @@ theorem splitWords_chars (line : List Char) :
     · simp at h
   · exact (splitWordsAux_chars line [] none x hx ' ' hm).2 (by simp) rfl
 
+/-! ### wrapping consumes nothing but spaces -/
+
+def noSp (s : List Char) : List Char := s.filter (fun c => c != ' ')
+
+theorem wrapAux_flatten (ww : List Char → Nat) (width : Nat) (xs cur : List Word) (w : Nat) :
+    (wrapFirstFitAux ww width xs cur w).flatten = cur.reverse ++ xs := by
+  induction xs generalizing cur w with
+  | nil => simp [wrapFirstFitAux]
+  | cons x xs ih =>
+    simp only [wrapFirstFitAux]
+    split
+    · simp [ih]
+    · simp [ih]
+
+theorem noSp_append (a b : List Char) : noSp (a ++ b) = noSp a ++ noSp b := by simp [noSp]
+
+theorem noSp_replicate (k : Nat) : noSp (List.replicate k ' ') = [] := by
+  induction k with
+  | zero => rfl
+  | succ n ih => simp only [List.replicate_succ, noSp, List.filter_cons] at ih ⊢; simp
+
+theorem noSp_lineOf (g : List Word) : noSp (lineOf g) = g.flatMap (fun x => noSp x.word) := by
+  induction g with
+  | nil => rfl
+  | cons y ys ih =>
+    cases ys with
+    | nil => simp [lineOf]
+    | cons z zs =>
+      simp only [lineOf, noSp_append, noSp_replicate, List.flatMap_cons] at ih ⊢
+      rw [ih]; simp
+
+theorem splitWordsAux_words (cs cur : List Char) (st : Option Nat) :
+    (splitWordsAux cs cur st).flatMap (fun x => x.word) = cur.reverse ++ noSp cs := by
+  induction cs generalizing cur st with
+  | nil =>
+    cases st with
+    | none =>
+      simp only [splitWordsAux]
+      split
+      · next h => simp [noSp, List.isEmpty_iff.mp h]
+      · simp [noSp]
+    | some k => simp [splitWordsAux, noSp]
+  | cons d ds ih =>
+    cases st with
+    | none =>
+      simp only [splitWordsAux]
+      split
+      · next h => rw [ih]; simp [noSp, h]
+      · next h => rw [ih]; simp [noSp, h]
+    | some k =>
+      simp only [splitWordsAux]
+      split
+      · next h => rw [ih]; simp [noSp, h]
+      · next h => simp only [List.flatMap_cons]; rw [ih]; simp [noSp, h]
+
 theorem splitOn_chars (sep : Char) (s : List Char) : ∀ l ∈ splitOn sep s, ∀ c ∈ l, c ∈ s := by
   induction s with
   | nil => intro l hl c hc; simp [splitOn] at hl; subst hl; simp at hc
